@@ -1,5 +1,7 @@
 """C06 — suggestions are valid, typed configurations; initial points first; no repeats."""
 import math
+import contextlib
+import io
 import os
 import random
 
@@ -75,7 +77,9 @@ ASSUMPTIONS = [
     "GP searchers: the optimiser's proposals are arbitrary inputs; only the final exclusion filter and the bookkeeping are modelled",
     "the scheduler's config_space equals the searcher's up to constants",
 ]
-RULE = ("cases: (a) real RandomSearcher / GridSearcher at searcher level and inside FIFOScheduler / HyperbandScheduler "
+RULE = ("(dehb, monitor only: no Lean model of DEHB) real GeometricDifferentialEvolutionHyperbandScheduler on small discrete / mixed "
+        "spaces, own sampler and explicit searchers, 1-4 workers, driven past the first bracket: configurations of new trials valid and "
+        "pairwise different; cases: (a) real RandomSearcher / GridSearcher at searcher level and inside FIFOScheduler / HyperbandScheduler "
         "(stopping, promotion, with and without max_resource_attr) on spaces generated from all public domain constructors "
         "incl. constants and single-value domains, points_to_evaluate None/[]/partial/duplicate/invalid, histories of "
         "suggest/result/fail/pending, half of the finite spaces driven to exhaustion; (a') RandomSearcher with "
@@ -169,6 +173,23 @@ def gen_cases(rng, tier):
         spec = gen_gp_exhaust_case(rng, tier)
         spec.update({"sched": rng.choice(["hb-promotion", "hb-stopping"]), "p_nan": 0, "p_burst": rng.choice([0.5, 0.8])})
         yield spec
+    # DEHB on small discrete spaces, past its first bracket (configurations from mutation and crossover), with its own sampler and
+    # with explicit searchers
+    for i in range(9 if tier == "quick" else 90):
+        yield {"scenario": "dehb", "sched_seed": rng.randrange(10 ** 6), "seed": rng.randrange(10 ** 9),
+               "cs_kind": rng.choice(["finite", "finite", "finite2", "mixed"]), "max_t": 9, "n_workers": rng.randint(1, 4),
+               "max_events": 260, "style": "distinct", "p_fail": 0,
+               "extra": {"brackets": rng.choice([None, 2, 3]), "searcher": [None, "random", "random"][i % 3]}}
+    # BO with more initial configurations than num_init_random and results arriving while they are handed out: all of them
+    # come first, in order, also once the searcher has data and would otherwise switch to its model
+    for _ in range(8 if tier == "quick" else 80):
+        space = S.gen_space(rng, finite=False, small=False, consts=False)
+        cs = S.build_space(space)
+        s0 = S.RandomSearcher(dict(cs), metric=S.METRIC, points_to_evaluate=[], random_seed=rng.randrange(1000), allow_duplicates=True)
+        p2e = [S._plain(s0.get_config()) for _ in range(rng.randint(4, 7))]
+        yield {"scenario": "gp", "space": space, "seed": rng.randrange(10 ** 9), "sched": rng.choice(["fifo", "fifo", "hb-promotion"]),
+               "n_suggest": len(p2e) + 4, "num_init_random": 2, "num_init_candidates": 4, "p2e": p2e, "p_fail": 0, "p_nan": 0,
+               "allow_duplicates": False}
     # BO on continuous spaces whose optimiser proposals lie on the faces of the unit cube (where expected improvement often has
     # its maximum): bounds of log-scaled / linear domains that exp(log(.)) / the affine map do not reproduce exactly
     bad = [["loguniform", [1e-4, 1e-1]], ["loguniform", [1e-5, 0.1]], ["loguniform", [1e-6, 1e-2]], ["loguniform", [1e-3, 10.0]],
@@ -364,7 +385,7 @@ def monitor(spec, t):
                 for sig, what in check_config(hp_cs, c, "searcher"):
                     add(sig, "BO loop returned " + what, {"config": repr(c)})
     # 2. initial configurations first, in order
-    if spec["scenario"] == "searcher" and not any(e["ev"] == "ctor-error" for e in events):
+    if (spec["scenario"] == "searcher" or (spec["scenario"] == "gp" and spec.get("p2e"))) and not any(e["ev"] == "ctor-error" for e in events):
         try:
             exp = expected_initial(hp_cs, spec["p2e"])
         except Exception:  # a value the rule cannot be read on (invalid point rejected by the constructor)
@@ -514,8 +535,38 @@ def monitor(spec, t):
 # ---------------------------------------------------------------------------------
 
 
+def run_dehb(spec):
+    """DEHB (monitor only, no model): every configuration of a NEW trial is valid and differs from the configuration of every
+    earlier new trial - DEHB keeps its own exclusion list for the configurations it draws and for the offspring of mutation and
+    crossover, whichever searcher provides the initial population"""
+    import json as _json
+    from streams import generic as g
+    cs = g.config_space(spec["cs_kind"], spec["max_t"])
+    with contextlib.redirect_stdout(io.StringIO()):
+        sch = g.make_scheduler("dehb", "min", spec["sched_seed"], spec["cs_kind"], spec["max_t"], spec["extra"])
+        ev = g.drive(sch, dict(spec, name="dehb"))
+    mon, seen, n_new = [], {}, 0
+    hp_keys = [k for k, d in cs.items() if isinstance(d, Domain)]
+    for e in ev:
+        if e[:2] == ["suggest", "start"]:
+            n_new += 1
+            cfg = {k: v for k, v in (e[4] or {}).items() if k in hp_keys}
+            key = _json.dumps(cfg, sort_keys=True, default=str)
+            if key in seen and not mon:
+                mon.append({"signature": "c06:dehb-repeated-configuration",
+                            "what": f"DEHB (searcher={spec['extra'].get('searcher') or 'own sampler'}): new trial {e[2]} is given the configuration "
+                                    f"{cfg!r} of trial {seen[key]}", "detail": {"config": cfg}})
+            seen.setdefault(key, e[2])
+    brackets_reached = len([1 for e in ev if e[:2] == ["suggest", "resume"]]) > 0
+    return {"lines": [], "monitor": mon, "meta": {"hist": {"scenario:dehb": 1, "dehb:new-trials": n_new,
+                                                           "dehb:searcher=" + str(spec["extra"].get("searcher") or "own"): 1},
+                                                    "nontrivial": n_new >= 8 and brackets_reached}}
+
+
 def run_impl(spec):
     sc = spec["scenario"]
+    if sc == "dehb":
+        return run_dehb(spec)
     if sc == "searcher":
         t = S.run_searcher_scenario(spec)
     elif sc == "pbt":
